@@ -7,6 +7,7 @@
   and every state.
 -/
 import TwigProofs.C09
+import TwigProofs.Lemmas.Paths
 namespace Twig
 
 /-! ## the context handed to the included template -/
@@ -52,7 +53,7 @@ theorem C11_include_found {E : Env} {go : Go} {tpl : Bytes} {te names exprs im o
       (go (.root name) { st2 with ctx := includeCtx E st1.ctx names exprs only sb vals } >>= fun z =>
         .ok (z.1, { z.2 with ctx := st2.ctx })) := by
   obtain ⟨ch, hx⟩ := evalExpr_ok_iff.mp h1
-  simp only [renderNode, hx, ok_bind, h2, h3, h4, h6, h7, Bool.false_eq_true, if_false, pure_eq_ok,
+  simp only [renderNode, hx, ok_bind, h2, resolveTpl_of_not_relative h3, h4, Option.map_some, h6, h7, Bool.false_eq_true, if_false, pure_eq_ok,
     includeCtx, includeBase]
 
 /-! ## non-interference -/
@@ -73,17 +74,15 @@ theorem C11_non_interference {E : Env} {go : Go} {tpl : Bytes} {te : Expr} {name
   obtain ⟨name, _, h⟩ := bind_ok h
   simp only at h
   split at h
-  · cases h
   · split at h
-    · split at h
-      · cases h; exact i1
-      · cases h
-    · split at h
-      · cases h
-      · obtain ⟨⟨vals, st2⟩, h2, h⟩ := bind_ok h
-        obtain ⟨⟨o, st3⟩, _, h⟩ := bind_ok h
-        cases h
-        exact (evalArgs_ctx E _ h2).trans i1
+    · cases h; exact i1
+    · cases h
+  · split at h
+    · cases h
+    · obtain ⟨⟨vals, st2⟩, h2, h⟩ := bind_ok h
+      obtain ⟨⟨o, st3⟩, _, h⟩ := bind_ok h
+      cases h
+      exact (evalArgs_ctx E _ h2).trans i1
 
 /-- the same, split as in the statement of the property: the context after the node is the one after
     evaluating the name and the `with` expressions (`st2`), and evaluating expressions changes no context -/
@@ -117,7 +116,7 @@ theorem C11_ignore_missing {E : Env} {go : Go} {tpl : Bytes} {te names exprs onl
     (h4 : E.tpl? name = none) :
     renderNode E go tpl (.include te names exprs true only sb) st = .ok ([], st1) := by
   obtain ⟨ch, hx⟩ := evalExpr_ok_iff.mp h1
-  simp only [renderNode, hx, ok_bind, h2, h3, h4, Bool.false_eq_true, if_false, if_true, pure_eq_ok]
+  simp only [renderNode, hx, ok_bind, h2, resolveTpl_of_not_relative h3, h4, Option.map_none, if_true, pure_eq_ok]
 
 /-- **missing ∧ no `ignore missing`** → the not-found error -/
 theorem C11_missing_reported {E : Env} {go : Go} {tpl : Bytes} {te names exprs only sb} {st st1 : St}
@@ -127,7 +126,7 @@ theorem C11_missing_reported {E : Env} {go : Go} {tpl : Bytes} {te names exprs o
     renderNode E go tpl (.include te names exprs false only sb) st =
       .error (.error .notFound [] "template not found") := by
   obtain ⟨ch, hx⟩ := evalExpr_ok_iff.mp h1
-  simp only [renderNode, hx, ok_bind, h2, h3, h4, Bool.false_eq_true, if_false]
+  simp only [renderNode, hx, ok_bind, h2, resolveTpl_of_not_relative h3, h4, Option.map_none, Bool.false_eq_true, if_false]
 
 /-- **every other failure is reported, `ignore missing` or not** — (1) the template exists and its
     rendering fails (with whatever error, including a not-found error raised further down) -/
@@ -150,7 +149,7 @@ theorem C11_with_failure_reported {E : Env} {go : Go} {tpl : Bytes} {te names ex
     (h7 : evalArgs E (dedupLast names exprs).2 st1 = .error err) :
     renderNode E go tpl (.include te names exprs im only sb) st = .error err := by
   obtain ⟨ch, hx⟩ := evalExpr_ok_iff.mp h1
-  simp only [renderNode, hx, ok_bind, h2, h3, h4, h6, h7, Bool.false_eq_true, if_false]
+  simp only [renderNode, hx, ok_bind, h2, resolveTpl_of_not_relative h3, h4, Option.map_some, h6, h7, Bool.false_eq_true, if_false]
   rfl
 
 /-- (3) `sandboxed` without a security policy -/
@@ -161,7 +160,7 @@ theorem C11_sandboxed_without_policy {E : Env} {go : Go} {tpl : Bytes} {te names
     renderNode E go tpl (.include te names exprs im only true) st =
       rerr "cannot use sandboxed include without a security policy" := by
   obtain ⟨ch, hx⟩ := evalExpr_ok_iff.mp h1
-  simp only [renderNode, hx, ok_bind, h2, h3, h4, h6, Bool.false_eq_true, if_false]
+  simp only [renderNode, hx, ok_bind, h2, resolveTpl_of_not_relative h3, h4, Option.map_some, h6]
   simp
   
 /-- (4) failure of the name expression or of its conversion to a string: `C11_name_error`,
@@ -171,30 +170,30 @@ theorem C11_sandboxed_without_policy {E : Env} {go : Go} {tpl : Bytes} {te names
 theorem C11_ignore_missing_only_missing {E : Env} {go : Go} {tpl : Bytes} {te names exprs im only sb} {st st' : St}
     {out : Bytes} (h : renderNode E go tpl (.include te names exprs im only sb) st = .ok (out, st')) :
     ∃ nv st1 name, evalExpr E te st = .ok (nv, st1) ∧ toStr nv = .ok name ∧
-      ((E.tpl? name = none ∧ im = true ∧ out = [] ∧ st' = st1) ∨
-       (∃ nodes vals st2 st3, E.tpl? name = some nodes ∧
+      ((resolveTpl E name = none ∧ E.tpl? name = none ∧ im = true ∧ out = [] ∧ st' = st1) ∨
+       (∃ rn nodes vals st2 st3, resolveTpl E name = some rn ∧ E.tpl? rn = some nodes ∧
+          (isRelative name = false → rn = name) ∧
           evalArgs E (dedupLast names exprs).2 st1 = .ok (vals, st2) ∧
-          go (.root name) { st2 with ctx := includeCtx E st1.ctx names exprs only sb vals } = .ok (out, st3))) := by
+          go (.root rn) { st2 with ctx := includeCtx E st1.ctx names exprs only sb vals } = .ok (out, st3))) := by
   simp only [renderNode] at h
   obtain ⟨⟨⟨nv, ch⟩, st1⟩, h1, h⟩ := bind_ok h
   obtain ⟨name, h2, h⟩ := bind_ok h
   refine ⟨nv, st1, name, evalExpr_ok_iff.mpr ⟨ch, h1⟩, h2, ?_⟩
   simp only at h
   split at h
-  · cases h
-  · split at h
-    · rename_i hnone
-      split at h
-      · rename_i him
-        cases h; exact .inl ⟨hnone, him, rfl, rfl⟩
-      · cases h
-    · rename_i nodes hsome
-      split at h
-      · cases h
-      · obtain ⟨⟨vals, st2⟩, h7, h⟩ := bind_ok h
-        obtain ⟨⟨o, st3⟩, hgo, h⟩ := bind_ok h
-        cases h
-        exact .inr ⟨nodes, vals, st2, st3, hsome, h7, hgo⟩
+  · rename_i hnone
+    split at h
+    · rename_i him
+      cases h; exact .inl ⟨hnone, resolveTpl_none hnone, him, rfl, rfl⟩
+    · cases h
+  · rename_i rn hsome
+    split at h
+    · cases h
+    · obtain ⟨⟨vals, st2⟩, h7, h⟩ := bind_ok h
+      obtain ⟨⟨o, st3⟩, hgo, h⟩ := bind_ok h
+      cases h
+      obtain ⟨nodes, hn⟩ := resolveTpl_some hsome
+      exact .inr ⟨rn, nodes, vals, st2, st3, hsome, hn, fun hr => resolveTpl_not_relative_eq hr hsome, h7, hgo⟩
 
 /-! ## visibility: what the included template can read -/
 
@@ -626,7 +625,7 @@ theorem C11_extends_hands_over {E : Env} {go : Go} {tpl : Bytes} {e : Expr} {st 
     (h : renderNode E go tpl (.extends e) st = .ok (out, st')) :
     ∃ st2, go (.root name) { st with ctx := { freshCtx st.ctx.vars (E.F.propExtends && st.ctx.sandboxed) st.ctx.inside with
                         blockDefs := st.ctx.blockDefs, parents := st.ctx.parents } } = .ok (out, st2) ∧ st'.ctx = st.ctx := by
-  simp only [renderNode, h1, ok_bind, h2, hrel, ht, Bool.false_eq_true, if_false] at h
+  simp only [renderNode, h1, ok_bind, h2, resolveTpl_of_not_relative hrel, ht, Option.map_some] at h
   cases hg : go (.root name) { st with ctx := { freshCtx st.ctx.vars (E.F.propExtends && st.ctx.sandboxed) st.ctx.inside with
                         blockDefs := st.ctx.blockDefs, parents := st.ctx.parents } } with
   | error err => rw [hg] at h; cases h
@@ -635,6 +634,87 @@ theorem C11_extends_hands_over {E : Env} {go : Go} {tpl : Bytes} {e : Expr} {st 
     obtain ⟨o, s2⟩ := r
     cases h
     exact ⟨s2, rfl, rfl⟩
+
+/-! ## relative template names (`./x`, `../x`)
+
+  A name starting with `./` or `../` is joined to the directory of the template the render call STARTED FROM
+  (`Env.entry` = Go's `ctx.templateName`, which `Template.RenderTo` sets and every derived context copies) — not
+  to the directory of the template that contains the tag — and the cleaned result is looked up; when no template
+  is registered under it (and it differs from the written name) the name as written is looked up. -/
+
+/-- the resolved name is registered: that is the template -/
+theorem C11_relative_resolves_against_entry {E : Env} {name : Bytes} {nodes : List Node}
+    (hr : isRelative name = true) (he : E.entry ≠ [])
+    (ht : E.tpl? (pathJoin (pathDir E.entry) name) = some nodes) :
+    resolveTpl E name = some (pathJoin (pathDir E.entry) name) := by
+  unfold resolveTpl
+  rw [if_pos (by simp [hr, he])]
+  simp only [ht]
+
+/-- the resolved name is not registered: the name as written is used — found if it is registered, not found
+    otherwise.  (When the resolved name IS the written one the second lookup is skipped; the result is the same.) -/
+theorem C11_relative_falls_back_to_written {E : Env} {name : Bytes}
+    (hr : isRelative name = true) (he : E.entry ≠ [])
+    (ht : E.tpl? (pathJoin (pathDir E.entry) name) = none) :
+    resolveTpl E name = (E.tpl? name).map (fun _ => name) ∧
+    (∀ nodes, E.tpl? name = some nodes → resolveTpl E name = some name) ∧
+    (E.tpl? name = none → resolveTpl E name = none) := by
+  have key : resolveTpl E name = (E.tpl? name).map (fun _ => name) := by
+    unfold resolveTpl
+    rw [if_pos (by simp [hr, he])]
+    simp only [ht]
+    split
+    · rename_i heq
+      rw [← eq_of_beq heq, ht]; rfl
+    · rfl
+  refine ⟨key, fun nodes hn => by rw [key, hn]; rfl, fun hn => by rw [key, hn]; rfl⟩
+
+/-- a render that did not start from a named template takes every name as written -/
+theorem C11_relative_without_entry {E : Env} {name : Bytes} (he : E.entry = []) :
+    resolveTpl E name = (E.tpl? name).map (fun _ => name) := resolveTpl_of_no_entry he
+
+/-- a name that is not relative is taken as written, whatever the entry -/
+theorem C11_plain_name_as_written {E : Env} {name : Bytes} (hr : isRelative name = false) :
+    resolveTpl E name = (E.tpl? name).map (fun _ => name) := resolveTpl_of_not_relative hr
+
+/-- what is looked up first for a relative name is a clean path: cleaning it again changes nothing, and it is `.`
+    or a sequence of elements — none empty, none `.`, none containing a slash — joined by single slashes (behind one
+    slash if the entry's directory is rooted) -/
+theorem C11_resolved_name_is_clean (entry name : Bytes) :
+    pathClean (pathJoin (pathDir entry) name) = pathJoin (pathDir entry) name ∧
+    ∃ s : List Bytes, (∀ e ∈ s, e ≠ [] ∧ e ≠ [46] ∧ (47 : UInt8) ∉ e) ∧
+      (pathJoin (pathDir entry) name = [46] ∨ pathJoin (pathDir entry) name = joinSlash s ∨
+       pathJoin (pathDir entry) name = 47 :: joinSlash s) := by
+  refine ⟨resolved_name_clean entry name, ?_⟩
+  obtain ⟨s, hs, h⟩ := pathJoin_shape (pathDir entry) name (pathDir_ne_nil entry)
+  refine ⟨s, hs, ?_⟩
+  rw [h]
+  split
+  · exact .inr (.inr rfl)
+  · split
+    · exact .inl rfl
+    · exact .inr (.inl rfl)
+
+/-- the include node with the name resolved: the transfer goes to the RESOLVED name (generalises `C11_include_found`) -/
+theorem C11_include_resolved {E : Env} {go : Go} {tpl : Bytes} {te names exprs im only sb} {st st1 st2 : St}
+    {nv : Val} {name rn : Bytes} {vals : List Val}
+    (h1 : evalExpr E te st = .ok (nv, st1)) (h2 : toStr nv = .ok name)
+    (h4 : resolveTpl E name = some rn)
+    (h6 : (sb && !E.hasPolicy) = false)
+    (h7 : evalArgs E (dedupLast names exprs).2 st1 = .ok (vals, st2)) :
+    renderNode E go tpl (.include te names exprs im only sb) st =
+      (go (.root rn) { st2 with ctx := includeCtx E st1.ctx names exprs only sb vals } >>= fun z =>
+        .ok (z.1, { z.2 with ctx := st2.ctx })) := by
+  obtain ⟨ch, hx⟩ := evalExpr_ok_iff.mp h1
+  simp only [renderNode, hx, ok_bind, h2, h4, h6, h7, Bool.false_eq_true, if_false, pure_eq_ok,
+    includeCtx, includeBase]
+
+/-- resolution does not look at the template that contains the tag: the same include node behaves the same in
+    every template (the base of a relative name is the entry template, a field of the environment) -/
+theorem C11_include_independent_of_container (E : Env) (go : Go) (tpl tpl' : Bytes) (te names exprs im only sb) (st : St) :
+    renderNode E go tpl (.include te names exprs im only sb) st =
+      renderNode E go tpl' (.include te names exprs im only sb) st := by
+  simp only [renderNode]
 
 /-! ## non-vacuity: whole-pipeline instances -/
 
@@ -717,5 +797,52 @@ example : evalX { tpls := [] } true (.test (.var [103]) (b "defined") []) ⟨{ p
   C11_defined_scope_independent _ _ _ _ _ (.inr ⟨_, List.mem_singleton.mpr rfl, rfl⟩)
 example : renderDemo "{% set v = null %}{% include 'x' %}{% include 'x' only %}" []
     [("x", "{{ v is defined ? 'D' : 'U' }}")] = some (b "DU") := by decide +kernel
+
+
+/-! ### relative template names: whole-pipeline runs with directory-style names -/
+
+/-- render `entry` of an engine holding `tpls` (name/source pairs) as `Engine.Render(entry, vars)` does — the render
+    call starts from the template named `entry` -/
+def renderDemoAt (entry : String) (tpls : List (String × String)) (vars : List (Bytes × Val) := []) : Option Bytes :=
+  match tpls.mapM (fun p => (parseTemplate (b p.2)).toOption.map (fun n => (b p.1, n))) with
+  | some ts =>
+    match renderEntry { tpls := ts } (b entry) vars with
+    | .ok (o, _) => some o
+    | .error _ => none
+  | none => none
+
+-- `./part` from `pages/home` is `pages/part`; `../shared/x` is `shared/x`
+example : renderDemoAt "pages/home" [("pages/home", "H[{% include './part' %}|{% include '../shared/x' %}]"),
+    ("pages/part", "P"), ("shared/x", "X"), ("part", "wrong"), ("./part", "written")] = some (b "H[P|X]") := by decide +kernel
+-- a relative name inside an INCLUDED template of another directory resolves against the ENTRY's directory
+example : renderDemoAt "pages/home" [("pages/home", "H[{% include 'shared/box' %}]"), ("shared/box", "B[{% include './part' %}]"),
+    ("pages/part", "P-pages"), ("shared/part", "P-shared")] = some (b "H[B[P-pages]]") := by decide +kernel
+-- … so the same template rendered as the entry finds its neighbour
+example : renderDemoAt "shared/box" [("pages/home", "H[{% include 'shared/box' %}]"), ("shared/box", "B[{% include './part' %}]"),
+    ("pages/part", "P-pages"), ("shared/part", "P-shared")] = some (b "B[P-shared]") := by decide +kernel
+-- fallback to the name as written when nothing is registered under the resolved name; nothing under either: failure,
+-- forgiven by `ignore missing`
+example : renderDemoAt "pages/home" [("pages/home", "H[{% include './part' %}]"), ("./part", "written"), ("shared/part", "no")]
+    = some (b "H[written]") := by decide +kernel
+example : renderDemoAt "pages/home" [("pages/home", "H[{% include './part' %}]"), ("shared/part", "no")] = none := by decide +kernel
+example : renderDemoAt "pages/home" [("pages/home", "H[{% include './part' ignore missing %}]"), ("shared/part", "no")]
+    = some (b "H[]") := by decide +kernel
+-- extends, import and from-import resolve alike; `..` beyond the root of a rooted entry stays at the root;
+-- repeated slashes and `.` elements are cleaned away; a computed name
+example : renderDemoAt "/abs/page" [("/abs/page", "{% extends '../../../base' %}{% block c %}C{% import './/lib' as l %}{{ l.m(1) }}{% from './a/../lib' import m %}{{ m(2) }}{% endblock %}"),
+    ("/base", "L[{% block c %}{% endblock %}]"), ("/abs/lib", "{% macro m(x) %}<{{ x }}>{% endmacro %}")] = some (b "L[C<1><2>]") := by decide +kernel
+example : renderDemoAt "a/b/c/page" [("a/b/c/page", "{% for q in ['x', 'y'] %}{% include '../' ~ q ~ '/t' %}{% endfor %}"),
+    ("a/b/x/t", "X"), ("a/b/y/t", "Y")] = some (b "XY") := by decide +kernel
+-- a relative name in the body of an imported macro: entry-relative too
+example : renderDemoAt "pages/home" [("pages/home", "{% import 'shared/lib' as l %}{{ l.box() }}"),
+    ("shared/lib", "{% macro box() %}M[{% include './part' %}]{% endmacro %}"), ("pages/part", "P-pages"), ("shared/part", "P-shared")]
+    = some (b "M[P-pages]") := by decide +kernel
+-- without an entry name (`renderTop` leaves `Env.entry` empty) the name is taken as written
+example : renderDemo "{% include './part' %}" [] [("part", "resolved"), ("./part", "written")] = some (b "written") := by decide +kernel
+-- the path functions on closed inputs (Go: Clean("a//b/./c/..") = "a/b", Dir("pages/home") = "pages", Dir("home") = ".",
+-- Join("/abs", "../../x") = "/x", Join(".", "../x") = "../x")
+example : pathClean (b "a//b/./c/..") = b "a/b" ∧ pathDir (b "pages/home") = b "pages" ∧ pathDir (b "home") = b "." ∧
+    pathJoin (b "/abs") (b "../../x") = b "/x" ∧ pathJoin (b ".") (b "../x") = b "../x" ∧ pathClean (b "../../a/../../b/") = b "../../../b" := by
+  decide +kernel
 
 end Twig
